@@ -43,8 +43,21 @@ type rCase struct {
 	Weights  map[string]float64 `json:"weights"` // empty = nil pointer (library default)
 	WClass   map[string]int     `json:"wclass"`  // passed through to the event (abstraction of the weights, an input)
 	SNI      string             `json:"sni"`
+	ALPN     []string           `json:"alpn"` // Config.NextProtos of both connections (empty = nil)
 	Tag      string             `json:"tag"`
 	Mutation string             `json:"mutation"` // canary only: "" | "second-seed" (generate the second time from another seed)
+}
+
+// descUConn describes the spec a UConn applied, in the format of descSpec. The negotiated version range lives in the
+// connection's private config copy (SetTLSVers); it is read (not modified) through reflection.
+func descUConn(u *tls.UConn) map[string]any {
+	cfg := reflect.ValueOf(u).Elem().FieldByName("Conn").Elem().FieldByName("config").Elem()
+	exts := []any{}
+	for _, e := range u.Extensions {
+		exts = append(exts, descExt(e))
+	}
+	return map[string]any{"min": int(cfg.FieldByName("MinVersion").Uint()), "max": int(cfg.FieldByName("MaxVersion").Uint()),
+		"suites": hlib.U16s(u.HandshakeState.Hello.CipherSuites), "comp": hlib.Ints(u.HandshakeState.Hello.CompressionMethods), "exts": exts}
 }
 
 func mkWeights(m map[string]float64) *tls.Weights {
@@ -77,7 +90,7 @@ func init() {
 		hlib.Parallel(len(req.Cases), func(i int) {
 			c := req.Cases[i]
 			ev := map[string]any{"ev": "Gen", "variant": c.Variant, "W": c.WClass, "tag": c.Tag, "sni": hlib.Ints([]byte(c.SNI)),
-				"seedless": len(c.Seed) == 0, "d1": map[string]any{}, "d2": map[string]any{}, "h1": []int{}, "h2": []int{}, "err": "", "seed": []int{}}
+				"seedless": len(c.Seed) == 0, "d1": map[string]any{}, "d2": map[string]any{}, "h1": []int{}, "h2": []int{}, "err": "", "seed": []int{}, "alpn": []any{}, "src": ""}
 			res[i] = ev
 			defer func() {
 				if p := recover(); p != nil {
@@ -90,7 +103,13 @@ func init() {
 				return
 			}
 			id := tls.ClientHelloID{Client: base.Client, Version: base.Version, Weights: mkWeights(c.Weights)}
-			cfg := func() *tls.Config { return &tls.Config{ServerName: c.SNI} }
+			cfg := func() *tls.Config { return &tls.Config{ServerName: c.SNI, NextProtos: append([]string(nil), c.ALPN...)} }
+			alpnJ := []any{}
+			for _, p := range c.ALPN {
+				alpnJ = append(alpnJ, hlib.Ints([]byte(p)))
+			}
+			ev["alpn"] = alpnJ
+			var u1, u2 *tls.UConn
 			var h1 []byte
 			if len(c.Seed) == 0 {
 				u, h, _, pn := wireHello(func(cn *hlib.BufConn) *tls.UConn { return tls.UClient(cn, cfg(), id) })
@@ -99,6 +118,7 @@ func init() {
 					return
 				}
 				h1 = h
+				u1 = u
 				id = u.ClientHelloID
 				if id.Seed == nil {
 					ev["err"] = "library did not record the seed it drew"
@@ -108,12 +128,13 @@ func init() {
 				var s tls.PRNGSeed
 				copy(s[:], hlib.Unints(c.Seed))
 				id.Seed = &s
-				_, h, _, pn := wireHello(func(cn *hlib.BufConn) *tls.UConn { return tls.UClient(cn, cfg(), id) })
+				u, h, _, pn := wireHello(func(cn *hlib.BufConn) *tls.UConn { return tls.UClient(cn, cfg(), id) })
 				if pn != "" {
 					ev["err"] = "first connection: " + pn
 					return
 				}
 				h1 = h
+				u1 = u
 			}
 			ev["seed"] = hlib.Ints(id.Seed[:])
 			id2 := id
@@ -122,11 +143,24 @@ func init() {
 				s2[0] ^= 1
 				id2.Seed = &s2
 			}
-			_, h2, _, pn := wireHello(func(cn *hlib.BufConn) *tls.UConn { return tls.UClient(cn, cfg(), id2) })
+			u2, h2, _, pn := wireHello(func(cn *hlib.BufConn) *tls.UConn { return tls.UClient(cn, cfg(), id2) })
 			if pn != "" {
 				ev["err"] = "second connection: " + pn
 				return
 			}
+			if len(c.ALPN) > 0 {
+				// UTLSIdToSpec generates with nil nextProtos; with Config.NextProtos the spec only exists inside the
+				// UConn: dump what each connection applied (version range, suites, extension objects)
+				if u1 == nil || u2 == nil || len(u1.Extensions) == 0 || len(u2.Extensions) == 0 {
+					ev["err"] = "connection did not apply a spec"
+					return
+				}
+				ev["d1"], ev["d2"] = descUConn(u1), descUConn(u2)
+				ev["h1"], ev["h2"] = hlib.Ints(h1), hlib.Ints(h2)
+				ev["src"] = "uconn"
+				return
+			}
+			ev["src"] = "spec"
 			s1, err := tls.UTLSIdToSpec(id)
 			if err != nil {
 				ev["err"] = err.Error()
